@@ -69,16 +69,18 @@ AREAS = {
 }
 
 
-def make_area_two(aname):
-    """two DERs in one controller: each element is clipped on its own, whatever the other one does"""
+def make_area_two(aname, narrow_second=False):
+    """two DERs in one controller: each element is clipped on its own, whatever the other one does
+    (narrow_second: the second DER stays inside one voltage / power band of the area, otherwise the path count is the square of the
+    single-DER count - 304^2 for the 4120 areas)"""
     def fn(ctx):
         dc = ctx.load("pandapower.control.controller.DERController.der_control")
         pa = ctx.load("pandapower.control.controller.DERController.PQVAreas")
         area = AREAS[aname](pa)
         c = _ctrl(ctx, dc, area, False, False)
-        p = _series(ctx, [ctx.var("p0", 0., 1.5), ctx.var("p1", 0., 1.5)])
+        p = _series(ctx, [ctx.var("p0", 0., 1.5), ctx.var("p1", *((0.3, 0.5) if narrow_second else (0., 1.5)))])
         q = _series(ctx, [ctx.var("q0", -1.5, 1.5), ctx.var("q1", -1.5, 1.5)])
-        vm = _series(ctx, [ctx.var("vm0", 0.5, 1.5), ctx.var("vm1", 0.5, 1.5)])
+        vm = _series(ctx, [ctx.var("vm0", 0.5, 1.5), ctx.var("vm1", *((1.0, 1.02) if narrow_second else (0.5, 1.5)))])
         p2, q2 = c._saturate(p.copy(), q.copy(), vm)
         fl = area.q_flexibility(p_pu=p2, vm_pu=vm)
         for i in range(2):
@@ -137,8 +139,8 @@ def instances(tier):
         out.append(Inst(f"area_{a}", make_area(a), nvars=12, samples=3, raises=(ValueError,), meta=dict(kernel="_saturate+area", area=a)))
     out.append(Inst("area_STATCOM_two_ders", make_area_two("STATCOM"), nvars=16, samples=3, raises=(ValueError,), meta=dict(kernel="_saturate+area", area="STATCOM", n=2)))
     if tier == "thorough":
-        out.append(Inst("area_4120V2_two_ders", make_area_two("4120V2"), nvars=16, samples=2, raises=(ValueError,), max_paths=200000, timeout_ms=30000,
-                        meta=dict(kernel="_saturate+area", area="4120V2", n=2)))
+        out.append(Inst("area_4120V2_two_ders", make_area_two("4120V2", narrow_second=True), nvars=16, samples=2, raises=(ValueError,), max_paths=20000, timeout_ms=30000,
+                        meta=dict(kernel="_saturate+area", area="4120V2", n=2, second_der="p in [0.3,0.5], vm in [1.0,1.02]")))
     for a in PQ:
         out.append(Inst(f"in_area_{a}", make_in_area(a), nvars=12, samples=3, meta=dict(kernel="in_area vs q_flexibility", area=a)))
     return out
